@@ -129,9 +129,27 @@ def main(tier, seed):
     rng = random.Random(seed * 7919 + 11)
     d = lib.casedir(PID)
     insts = lib.load_corpus(PID) + [instgen.gen_instance(rng, rng.choice([{"slots": "some"}, {"slots": "some", "zero_shunting": True},
-                                                                         {"slots": "some", "depots": "scarce"}, None]))
+                                                                         {"slots": "some", "depots": "scarce"}, None,
+                                                                         {"slots": "some", "type_limits": "all"},
+                                                                         {"slots": "some", "seg_limits": "all", "ntypes": 2}]))
                                     for _ in range(n)]
-    cases = [(d, k, inst, [rng.randrange(10 ** 6) for _ in range(rng.choice([1, 2, 3, 4, 6]))]) for k, inst in enumerate(insts)]
+    def gen_walk():
+        r = rng.random()
+        if r < 0.55:
+            return [rng.randrange(10 ** 6) for _ in range(rng.choice([1, 2, 3, 4, 6]))]
+        # scripted walks ("pattern|n": the n-th candidate whose description contains the pattern, else candidate n):
+        # a service trip is taken off a vehicle (it goes to a dummy tour), its place is possibly refilled by hitch-hiking,
+        # then nodes are exchanged out of dummy tours into real vehicles - the moves that ADD a vehicle to a formation
+        n = lambda: rng.randrange(10 ** 4)
+        w = []
+        for _ in range(rng.choice([1, 1, 2])):
+            w.append("RemoveSingleNode_trip|%d" % n())
+            if rng.random() < 0.6:
+                w.append("AddTripForHitchHiking|%d" % n())
+        for _ in range(rng.choice([1, 2, 3])):
+            w.append(rng.choice(["from_dummy|%d", "from_dummy|%d", "PathExchange|%d", "%d"]) % n())
+        return [int(x) if x.isdigit() else x for x in w]
+    cases = [(d, k, inst, gen_walk()) for k, inst in enumerate(insts)]
     # corpus cases with a prescribed walk (candidate descriptions or indices)
     if not os.environ.get("VERIF_REPLAY"):
         cases += [(d, 9000 + k, c["instance"], c["walk"]) for k, c in enumerate(lib.load_corpus_cases(PID + "_walks"))]
